@@ -453,6 +453,19 @@ func c08Run(w *core.W) {
 			}
 		}
 	}
+	// (4d) long strings (around and beyond 256 bytes, one- and two-byte characters) pinned by
+	// const or listed in an enum: the value must reach the Schema Object whole
+	for _, n := range []int{64, 255, 256, 257, 300, 1000, 5000} {
+		for _, unit := range []string{"x", "д"} {
+			long := `"` + strings.Repeat(unit, n) + `"`
+			for _, root := range []string{long + " // {const: true}", "{\n\t\"k\": " + long + " // {const: true}\n}", long + " // {enum: [" + long + ", \"b\"]}",
+				long + ` // {or: [{type: "string", const: true}, {type: "integer"}]}`, long + " // {minLength: 1}", "[\n\t@t\n]"} {
+				if mine() {
+					c08Case(w, &project{Root: root, Types: map[string]string{"@t": long + " // {const: true}"}}, "long-strings")
+				}
+			}
+		}
+	}
 	// (4c) `or` lists whose items share a type name and differ in their other rules
 	sameType := []string{`{type: "integer", min: 0}`, `{type: "integer", max: -10}`, `{type: "float", min: 10}`, `{type: "float", max: 3}`, `{type: "string", maxLength: 3}`,
 		`{type: "string", regex: "^[0-9]+$"}`, `{type: "enum", enum: ["a"]}`, `{type: "enum", enum: ["b", 7]}`, `"integer"`, `"string"`, `{type: "decimal", precision: 1}`, `{type: "decimal", precision: 3, min: 100}`}
